@@ -128,15 +128,22 @@ impl ConclusionIndex {
 
     /// Extract field name from goal pattern
     fn extract_field_from_goal<'a>(&self, goal_pattern: &'a str) -> &'a str {
-        // Handle comparison operators
+        // The field is what stands before the first operator of the pattern (an operator
+        // character inside the literal, e.g. `status != 'a==b'`, must not be taken for it)
+        let mut first: Option<usize> = None;
         for op in &["==", "!=", ">=", "<=", ">", "<", " contains ", " matches "] {
             if let Some(pos) = goal_pattern.find(op) {
-                return goal_pattern[..pos].trim();
+                if first.map_or(true, |best| pos < best) {
+                    first = Some(pos);
+                }
             }
         }
 
-        // No operator found, return whole pattern
-        goal_pattern.trim()
+        match first {
+            Some(pos) => goal_pattern[..pos].trim(),
+            // No operator found, return whole pattern
+            None => goal_pattern.trim(),
+        }
     }
 
     /// Extract all conclusions (facts derived) from a rule
